@@ -152,9 +152,14 @@ def run_case(case, ctx):
     hk = [QI.of(h0) * (qrho_inv ** k) for k in range(N)]
     hkp = [[hk[k] ** (order + spacing * j) for j in range(nmodel)] for k in range(N)]
     maxabs = np.zeros(ncols)
+    units = np.ones(ncols)
+    if ncols > 1 and case['seed'] % 4 == 1:
+        # columns in wildly different units (1e-200 .. 1e+200 apart): each column is a sequence of its own
+        units = 10.0 ** rng.choice([-200.0, -160.0, -100.0, 0.0, 100.0, 150.0, 200.0], size=ncols)
+        ctx.count('columns_in_wildly_different_units')
     for c in range(ncols):
-        L = float(rng.choice([-1, 1])) * 10.0 ** rng.uniform(-3, 3)
-        a = [float(rng.choice([-1, 1])) * 10.0 ** rng.uniform(-3, 3) for _ in range(nmodel)]
+        L = float(rng.choice([-1, 1])) * 10.0 ** rng.uniform(-3, 3) * float(units[c])
+        a = [float(rng.choice([-1, 1])) * 10.0 ** rng.uniform(-3, 3) * float(units[c]) for _ in range(nmodel)]
         Ls.append(L)
         As.append(a)
         for k in range(N):
@@ -247,6 +252,19 @@ def run_case(case, ctx):
                 ctx.reject('columns_not_independent', detail=dict(col=c))
                 return
         ctx.count('column_independence_asserted')
+        # ... also next to a column that overflowed (inf from the second row on): the other columns are what they were
+        sick = np.concatenate([seq, np.full((N, 1), np.inf, dtype=seq.dtype)], axis=1)
+        sick[0, -1] = 1.0
+        try:
+            with np.errstate(all='ignore'):
+                o2, e2, _ = rich(sick, np.concatenate([steps, steps[:, :1]], axis=1))
+            ctx.count('column_independence_next_to_an_overflowed_column_asserted')
+            if np.ascontiguousarray(np.asarray(o2)[:, :ncols]).tobytes() != np.ascontiguousarray(out).tobytes():
+                ctx.reject('columns_not_independent', detail=dict(next_to='a column holding inf'))
+                return
+        except Exception as exc:
+            ctx.reject('call_raised', observed=repr(exc), detail=dict(N=N, used=used, column_of_inf=True))
+            return
     if well and used >= 1 and nmodel >= 1:
         ctx.nontrivial((cplx, spacing, order, used, N))
     if len(ctx.samples) < 2:
